@@ -38,6 +38,8 @@ def cases(tier, seed):
     ngen = 400 if tier == "quick" else 20000
     out += [{"kind": "gen", "i": i, "seed": seed} for i in range(ngen)]
     out += _embedded.assembly_cases(seed, 40 if tier == "quick" else 1500)
+    if tier == "thorough":
+        out.append({"kind": "repo-tests"})
     return out
 
 
@@ -70,7 +72,7 @@ def _small(n):
 
 
 def materialise(case):
-    if "rec" in case or case.get("kind") == "assembly-mat":
+    if "rec" in case or case.get("kind") in ("assembly-mat", "repo-tests"):
         return case
     if case["kind"] == "small":
         return _small(case["n"])
@@ -120,6 +122,9 @@ def worker_init(ctx, tier):
 
 
 def execute(mat, ctx):
+    if mat["kind"] == "repo-tests":
+        _embedded.run_repo_tests_under_monitors(ctx, ["rotation"], PROP)
+        return
     if mat["kind"] == "assembly-mat":
         before = ctx.counters["rotation_calls"]
         _embedded.run_assembly(mat, ctx)
